@@ -116,6 +116,25 @@ Judge(ev) ==
             ELSE IF ~ev.obs.ongrid THEN "bad:off-grid"
             ELSE J(IsRounded(BMul(a.n, sf.d), BMul(a.d, sf.n), Lim(ev.obs.R), ev.mode, a.s = -1)
                    /\ (((a.s = -1) = ev.obs.neg) \/ Lim(ev.obs.R) = <<>>))
+      [] ev.op = "price_rate" ->
+            \* money-per-mass price times / over a rate (C10).  decl: the declared compound units <<currency, mass unit>>
+            LET r == R(ev.r)
+                want == IF ev.kind = "mul" THEN r.uc ELSE r.tc
+                tcur == IF ev.kind = "mul" THEN r.tc ELSE r.uc
+                decl == {<<ev.decl[k].c, ev.decl[k].m>> : k \in DOMAIN ev.decl}
+                exact == <<tcur, ev.p.m>> \in decl
+                anyvec == \E d \in decl : d[1] = tcur
+                MScale(m) == CASE m = "kg" -> QInt(1) [] m = "g" -> QRat(1, 1000) [] m = "t" -> QInt(1000)
+                rate == IF ev.kind = "mul" THEN QMk(1, r.t6, RateDen(r)) ELSE QMk(1, RateDen(r), r.t6)
+                \* value in (target currency per kg)
+                val == QDiv(QMul(Q(ev.p.a), rate), MScale(ev.p.m))
+            IN  IF ~ev.p.ismoney THEN J(IsErr(ev.obs, "QuantityError"))
+                ELSE IF ev.p.c # want THEN J(IsErr(ev.obs, "QuantityError"))
+                ELSE IF ~anyvec THEN J(IsErr(ev.obs, "QuantityError"))
+                ELSE IF ~exact THEN "oor"          \* another unit of the dimension is declared: the property is silent
+                ELSE IF ev.obs.st # "ok" THEN "bad:rejected"
+                ELSE IF ev.obs.c # tcur \/ <<ev.obs.c, ev.obs.m>> \notin decl \/ ~ev.obs.sametype THEN "bad:unit-or-type"
+                ELSE J(QEqv(QDiv(Q(ev.obs.a), MScale(ev.obs.m)), val))
       [] ev.op = "isocount" -> J(ev.n = Len(Iso) /\ Len(Iso) = 167)
 
 Init == i = 1
